@@ -1,5 +1,6 @@
 (* Eco/Apache/Version.v — model of pkg/ecosystem/apache/version.go (definitions only). *)
 From Verif.Base Require Import Bytes GoNum.
+From Verif.Gen Require Tables.
 From Verif.Eco Require Import VLayer.
 Local Open Scope N_scope.
 
@@ -80,9 +81,9 @@ Definition parse_core (t : bytes) : option core :=
   end.
 
 (* getQualifierPrecedence *)
+(* generated from the Go source on every run (tools/gen -> Gen/Tables.v) *)
 Definition qualifier_precedence_table : list (bytes * Z) :=
-  [($"alpha", 1%Z); ($"beta", 2%Z); ($"m", 3%Z); ($"milestone", 3%Z);
-   ($"rc", 4%Z); ($"snapshot", 5%Z); ($"dev", 6%Z)].
+  Eval cbv delta [Verif.Gen.Tables.apache_getQualifierPrecedence] in Verif.Gen.Tables.apache_getQualifierPrecedence.
 
 Definition qualifier_precedence (q : bytes) : Z :=
   match lookup q qualifier_precedence_table with
